@@ -3058,6 +3058,41 @@ def gen_C12(tier, rng):
             if ill[0]:
                 c["skip_model"] = True
             cases.append(c)
+    # an operation RESULT is switched off (untracked() or stop_tracking()), cloned in that state, and the clone (or the
+    # result itself) is switched on again and used as an operand, or differentiated directly: the clone is the same
+    # node with the same recorded graph, so the gradients below it are those of the original
+    for n in range(50 if tier == "quick" else 600):
+        d = rng.choice([[2], [3], [2, 2]])
+        nel = prod(d)
+        av, bv, wv = int_vals(nel, rng), int_vals(nel, rng), int_vals(nel, rng)
+        off = rng.choice(["untracked", "stop"])
+        on = rng.choice(["tracked", "start"])
+        direct = n % 3 == 0
+        for k in range(3):
+            ins = [("leaf", True, d, av), ("leaf", True, d, bv), ("op", ("mul",), [0, 1]), (off, 2)]
+            h = 2
+            if k >= 1:
+                ins.append(("clone", 2))
+                h = len(ins) - 1
+                if k == 2:
+                    ins.append(("drop", 2))
+            ins.append((on, h))
+            if direct:
+                root = h
+                ga, gb = list(bv), list(av)
+            else:
+                ins += [("leaf", False, d, wv), ("op", ("mul",), [h, len(ins)])]
+                root = len(ins) - 1
+                ga, gb = [x * y for x, y in zip(wv, bv)], [x * y for x, y in zip(wv, av)]
+            ins += [("backward", root, None), ("grad", 0), ("grad", 1)]
+            g0, g1 = len(ins) - 2, len(ins) - 1
+            c = case("off_clone", ins, "switched_off_result_cloned_and_switched_on")
+            c["group"] = 300000 + n
+            c["role"] = "base" if k == 0 else "variant%d" % (k - 1)
+            c["grads_by_leaf"] = {0: g0, 1: g1}
+            c["adjudicate"] = [g0, g1]
+            c["expect_at"] = [(g0, d, ga), (g1, d, gb)]
+            cases.append(c)
     # a leaf that holds a gradient is re-bound through the consuming untracked() and tracked() (or the by-reference
     # toggles): what it holds afterwards, and what later passes add, does not depend on which results or clones of
     # it are still alive at that moment
